@@ -18,12 +18,13 @@ pub mod c13;
 pub mod c14;
 pub mod c15;
 pub mod c16;
+pub mod c17;
 pub mod c18;
 pub mod c19;
 pub mod c20;
 pub mod srvref;
 
-pub const REGISTRY: &[(&str, fn(&Reporter), &str)] = &[("C01", c01::check, "exploration"), ("C02", c02::check, "exploration"), ("C03", c03::check, "model_checking"), ("C04", c04::check, "model_checking"), ("C05", c05::check, "model_checking"), ("C06", c06::check, "model_checking"), ("C07", c07::check, "exploration"), ("C08", c08::check, "exploration"), ("C09", c09::check, "model_checking"), ("C10", c10::check, "model_checking"), ("C11", c11::check, "model_checking"), ("C12", c12::check, "exploration"), ("C13", c13::check, "model_checking"), ("C14", c14::check, "exploration"), ("C15", c15::check, "exploration"), ("C16", c16::check, "exploration"), ("C18", c18::check, "model_checking"), ("C19", c19::check, "exploration"), ("C20", c20::check, "exploration")];
+pub const REGISTRY: &[(&str, fn(&Reporter), &str)] = &[("C01", c01::check, "exploration"), ("C02", c02::check, "exploration"), ("C03", c03::check, "model_checking"), ("C04", c04::check, "model_checking"), ("C05", c05::check, "model_checking"), ("C06", c06::check, "model_checking"), ("C07", c07::check, "exploration"), ("C08", c08::check, "exploration"), ("C09", c09::check, "model_checking"), ("C10", c10::check, "model_checking"), ("C11", c11::check, "model_checking"), ("C12", c12::check, "exploration"), ("C13", c13::check, "model_checking"), ("C14", c14::check, "exploration"), ("C15", c15::check, "exploration"), ("C16", c16::check, "exploration"), ("C17", c17::check, "exploration"), ("C18", c18::check, "model_checking"), ("C19", c19::check, "exploration"), ("C20", c20::check, "exploration")];
 
 /// Re-execute a replay artefact; prints REPRODUCED / NOT-REPRODUCED.
 pub fn replay(v: &serde_json::Value) -> i32 {
